@@ -385,12 +385,8 @@ impl Obs {
     /// canonical T2 line; ANY data answers are replaced by a placeholder
     fn line(&self, errs: &[String], qtype: u16) -> String {
         if self.out_of_zone { return "OutOfZone".into(); }
-        let an = if qtype == T_ANY && self.aa && self.rcode == 0 && !self.answer.is_empty() && !self.answer.iter().all(|r| r.starts_with("5/")) {
-            "ANY".to_string()
-        } else if qtype == T_ANY && self.aa && self.rcode == 0 && !self.answer.is_empty() {
-            // an ANY answer consisting of CNAME records: either the special CNAME or a plain RRset
-            format!("ANY?{}", set_show(&self.answer))
-        } else { set_show(&self.answer) };
+        // which RRset an ANY query returns depends on hash order: placeholder here, membership in the oracle
+        let an = if qtype == T_ANY && self.aa && self.rcode == 0 && !self.answer.is_empty() { "ANY".to_string() } else { set_show(&self.answer) };
         format!("{} {} AN={} AU={} AD={} E={}", self.rcode, self.aa as u8, an, set_show(&self.authority), set_show(&self.additional),
             if errs.is_empty() { "-".to_string() } else { errs.join(",") })
     }
@@ -557,13 +553,20 @@ fn matches(e: &Expect, o: &Obs) -> bool {
 
 /// Name the way a history-built zone deviates (the known-finding classes).
 fn history_class(z: &Flat, q: &Rel, e: &Expect, o: &Obs) -> &'static str {
+    // the answer carries a record that is no longer in the zone: a delegation / alias that the builder
+    // stored in the node's `Special` cannot be deleted through RRset-level updates
+    let all: BTreeSet<String> = z.records().iter().map(|r| format!("{}/{}/{}", r.rtype, r.ttl, r.rd.show())).collect();
+    let owned: BTreeSet<String> = z.records().iter().map(|r| r.show_slash()).collect();
+    if o.answer.iter().any(|r| !all.contains(r)) || o.authority.iter().chain(o.additional.iter()).any(|r| !owned.contains(r)) { return "special_survives_delete"; }
+    if !o.aa && e.aa { return "special_survives_delete"; }
+    // a delegation / alias is due, but the NS / CNAME records were stored as plain RRsets
+    if e.what == "referral" || e.what.starts_with("cut_ds") { return "updater_ns_not_cut"; }
+    if e.what == "cname" || e.what == "wild_cname" { return "updater_cname_not_special"; }
     if o.rcode == 3 && e.rcode != 3 {
         if e.what.starts_with("wild_") { return "deleted_name_shadows_wildcard"; }
         if e.what == "ent_nodata" && !z.owns(q) { return "updater_ent_nxdomain"; }
         return "updater_descendant_nxdomain";
     }
-    if e.what == "cname" || e.what == "wild_cname" { return "updater_cname_not_special"; }
-    if e.what == "referral" || e.what.starts_with("cut_ds") { return "updater_ns_not_cut"; }
     if e.what.starts_with("wild_") { return "deleted_name_shadows_wildcard"; }
     if e.rcode == 3 && o.rcode == 0 { return "stale_node_nodata"; }
     "history_dependent_other"
@@ -796,9 +799,29 @@ fn gen_write_history(r: &mut Rng, start: &Flat, target: &Flat) -> (Vec<Op>, Flat
 
 // ---------------------------------------------------------------- main
 
-struct Ctx { out: Out, rt: tokio::runtime::Runtime }
+struct Ctx { out: Out, rt: tokio::runtime::Runtime, seen: BTreeMap<String, u32> }
+
+const KNOWN: [&str; 7] = ["updater_descendant_nxdomain", "updater_ent_nxdomain", "deleted_name_shadows_wildcard", "updater_ns_not_cut",
+    "updater_cname_not_special", "special_survives_delete", "stale_node_nodata"];
 
 impl Ctx {
+    /// Oracle verdict.  The shared collector keeps the first 200 failure lines only, so failures of the
+    /// classes that are known findings are reported 4 times per class and counted afterwards; every
+    /// other failure is always reported.
+    fn verdict(&mut self, ok: bool, class: &str, case: &str, detail: &str) {
+        if !ok && KNOWN.contains(&class) {
+            // "plain": no delegation / alias record anywhere in the history, so the failure is not a
+            // consequence of the Special-vs-RRset duality (K3) but of node bookkeeping alone
+            let plain = !case.split(' ').any(|w| { let f: Vec<&str> = w.split(':').collect();
+                f.len() >= 4 && f[1] != "@" && (f[2] == "2" || f[2] == "5" || f[2] == "43") && f[0] != "?" });
+            if plain { self.out.count(&format!("known_class_plain/{}", class)); }
+            let n = self.seen.entry(class.to_string()).or_insert(0);
+            *n += 1;
+            if *n > 4 { self.out.count(&format!("known_class_more/{}", class)); self.out.check(true, "ok", case, ""); return; }
+        }
+        self.out.check(ok, class, case, detail);
+    }
+
     fn run(&mut self, ops: &[Op]) -> Option<Built> {
         let rt = &self.rt;
         catch_mut(|| rt.block_on(run_ops(ops))).ok()
@@ -829,11 +852,13 @@ impl Ctx {
             self.out.case(&case, &obs.line(&built.errs, *t), obs.rcode != 3, &format!("{}/{}", kind, obs.kind()));
             if let Some(z) = content {
                 if !z.wf() { continue; }
+                let ql = Rel(q.0.iter().map(|l| l.to_ascii_lowercase()).collect());
+                let q = &ql;
                 let e = spec(z, q, *t);
                 self.out.count(&format!("spec/{}", e.what));
                 let ok = matches(&e, &obs);
                 let class = if ok { "ok".to_string() } else if history { history_class(z, q, &e, &obs).to_string() } else { format!("spec_{}", e.what) };
-                self.out.check(ok, &class, &case, &format!("expected {} rcode={} aa={} AN={} AU={} AD={}; got {}",
+                self.verdict(ok, &class, &case, &format!("expected {} rcode={} aa={} AN={} AU={} AD={}; got {}",
                     e.what, e.rcode, e.aa as u8, e.answers.iter().map(set_show).collect::<Vec<_>>().join("|"), set_show(&e.authority), set_show(&e.additional), obs.line(&[], 0)));
                 if ok { self.out.check(obs.dup_free(), "duplicate_records_in_answer", &case, &obs.line(&[], 0)); }
                 if let Some(rz) = reference {
@@ -844,7 +869,7 @@ impl Ctx {
                         let same = if *t == T_ANY && ro.kind() == "data" && obs.kind() == "data" { ro.authority == obs.authority && ro.additional == obs.additional }
                                    else { ro.rcode == obs.rcode && ro.aa == obs.aa && ro.answer == obs.answer && ro.authority == obs.authority && ro.additional == obs.additional };
                         let class = if same { "ok".to_string() } else { let c = history_class(z, q, &e, &obs); if c == "history_dependent_other" { "differs_from_rebuilt".to_string() } else { c.to_string() } };
-                        self.out.check(same, &class, &case, &format!("rebuilt zone answers {}; history zone answers {}", ro.line(&[], 0), obs.line(&[], 0)));
+                        self.verdict(same, &class, &case, &format!("rebuilt zone answers {}; history zone answers {}", ro.line(&[], 0), obs.line(&[], 0)));
                     }
                 }
             }
@@ -859,7 +884,7 @@ fn main() {
     let a = args();
     let out = Out::new(&a, "C08", 60);
     let rt = tokio::runtime::Builder::new_current_thread().enable_all().build().unwrap();
-    let mut cx = Ctx { out, rt };
+    let mut cx = Ctx { out, rt, seen: BTreeMap::new() };
     let mut r = Rng::new(a.seed);
 
     // ------------------------------------------------------------ corpus
@@ -872,6 +897,8 @@ fn main() {
     let names = ["@", "www", "zz", "b", "a.b", "q.b", "q.a.b", "sub", "ns.sub", "x.sub", "q.x.sub", "al", "q.al", "*", "w", "q.w", "*.w", "c.*.w", "q.q.w", "c.q.w"];
     let mut qs: Vec<(Rel, u16)> = vec![];
     for n in names { for t in all_types { qs.push((p(n), t)); } }
+    // label comparison is case-insensitive
+    for n in ["WWW", "A.b", "Q.SUB", "X.w"] { qs.push((p(n), T_A)); qs.push((p(n), T_TXT)); }
     let zops: Vec<Op> = base.iter().cloned().map(Op::ZRec).collect();
     cx.eval("corpus_zonefile", &zops, Some(&bz), &qs, None);
     let bops = builder_ops(&bz, &mut r);
